@@ -17,7 +17,9 @@ def create_jacobians(dict_def: dict[str, Any]) -> list[str]:
             params.extend(create_jacobians(element))
     elif isinstance(dict_def, dict):
         if 'type' in dict_def and dict_def['type'] == 'TransformedParameter':
-            if not (
+            # the rescaled rates are a deterministic function of the unscaled
+            # rates, on which the prior is placed: there is no Jacobian term
+            if dict_def['transform'] != 'RescaledRateTransform' and not (
                 dict_def['transform'] == 'torch.distributions.AffineTransform'
                 and dict_def['parameters']['scale'] == 1.0
             ):
